@@ -67,7 +67,7 @@ check("C17", "exploration",
       "deterministic simulation: simulated clock (length counter) jumps + independent reference models + real streaming across the first boundary", "6.8")
 
 check("C18", "exploration",
-      "Two schedulers for the two halves of the property. Instances of every algorithm are interleaved in one thread by the seeded scheduler and each instance's transcript is compared with the same operations replayed alone (fresh world and thread; for a fraction of the runs alone in a brand-new process, so that statics are cold and no other instance ever existed). Threads: 147 enumerated workloads of 2-6 threads released by a barrier (first calls of every algorithm racing on the one-time initialisations; bulk calls of several KiB incl. five concurrent callers; 'hammer' workloads of repeated short calls; the hammer after 246 / 65526 constructions; 'mix' workloads in which every thread uses another variant of one family - long misaligned calls, two variants in 16 KiB calls (thorough), and more Skein output lengths than a small cache has ways in repeated short calls), each in a fresh Miri interpreter per (workload, scheduler seed, preemption rate) - a cold process; Miri's seeded scheduler decides every preemption, its race/deadlock detector is on, results are compared with sequential expectations computed natively, and a failure is re-run with the threads one after the other to decide whether it needs overlap.",
+      "Two schedulers for the two halves of the property. Instances of every algorithm are interleaved in one thread by the seeded scheduler and each instance's transcript is compared with the same operations replayed alone (fresh world and thread; for a fraction of the runs alone in a brand-new process, so that statics are cold and no other instance ever existed). Threads: 152 enumerated workloads of 2-6 threads released by a barrier (first calls of every algorithm racing on the one-time initialisations; bulk calls of several KiB incl. five concurrent callers; 'hammer' workloads of repeated short calls; the hammer after 246 / 65526 constructions; 'mix' workloads in which every thread uses another variant of one family - long misaligned calls, two variants in 16 KiB calls (thorough), and more Skein output lengths than a small cache has ways in repeated short calls), each in a fresh Miri interpreter per (workload, scheduler seed, preemption rate) - a cold process; Miri's seeded scheduler decides every preemption, its race/deadlock detector is on, results are compared with sequential expectations computed natively, and a failure is re-run with the threads one after the other to decide whether it needs overlap.",
       "Trusted: Miri's scheduler and data-race detector; under Miri the algorithms run on the portable ppv-lite86 backend and, in about half of the runs, on the x86 backend (overlay build, AVX2 machine), Groestl on Miri's AES-NI shims; std's CPUID cache is answered by the interpreter and not raced. Workloads are enumerated, schedules (seed x preemption rate) are sampled.",
       "deterministic simulation: seeded call-level interleaving with isolation replay (thread / cold process) + controlled thread scheduler (Miri seeds) from a cold process", "6.9")
 
